@@ -20,6 +20,11 @@ def check_impl(fn, args, out):
 def run(ctx):
     rng = ctx.rng
     cases = []
+    import json, os
+    cp = os.path.join(fw.VERIF, "corpus", "C10.json")
+    corpus = json.load(open(cp)) if os.path.exists(cp) else []
+    for w in corpus:       # ultra-rare inputs (0 or 1 decimal nibbles in the encrypted TSP), see tools/rare_search.py
+        cases.append(("generate_visa_pvv", (bytes.fromhex(w["pvk"]), w["pvki"], w["pin"], w["pan"])))
     rnd = lambda n: "".join(rng.choice("0123456789") for _ in range(n))  # noqa: E731
     from harness import gens
     for _ in range(ctx.n(600, 3000)):
@@ -58,4 +63,5 @@ def run(ctx):
         rule="random PVK sizes 8/16/24 x index x PIN x PAN lengths 12..24 (+ all 10^4 PINs in thorough) + directed inputs "
              "needing the second decimalisation pass + domain edges; oracle = independent PVV; non-trivial = distinct successful calls")
     res["distribution"]["second_pass_inputs"] = found
+    res["distribution"]["corpus_inputs_0_or_1_decimal_nibbles"] = len(corpus)
     return res
